@@ -98,3 +98,88 @@ fn replay_c08_total_work() {
 }
 """ % (hops, w["total_fees"], arr(w["creator"]), w["expected_work"], K)
     return ("replay_c08_total_work", src)
+
+
+# ---------------------------------------------------------------- gates inside Block::validate
+import re
+from . import lib as L, bv_explore as BV
+
+
+def _sel(ctx, v):
+    got = BV.full_node_true_paths(ctx, v)
+    if got is None:
+        return None
+    r, sel = got
+    ex = r["ex"]
+    out = []
+    for o, cond in sel:
+        bt = BV.block_field(ctx, r, o, "block_type")
+        if isinstance(bt, S.EnumV):
+            cond = z3.And(cond, z3.Not(L.enum_is(ctx, bt, "BlockType", "Ghost")))
+        pg = BV.prev_block_is_ghost(ctx, r, o)
+        if pg is not None:
+            cond = z3.And(cond, z3.Not(pg))
+        if ex.feasible(o.pc, cond):
+            out.append((o, cond))
+    return r, out
+
+
+def c08_block_work_gate(ctx, v):
+    """Block::validate returns true for a block whose parent is known (non-ghost)  =>  the routing
+    work requirement was computed by BurnFee::return_routing_work_needed_to_produce_block_in_nolan
+    (parent burn fee, self.timestamp, parent timestamp, heartbeat) and self.total_work >= it."""
+    got = _sel(ctx, v)
+    if got is None:
+        return
+    r, sel = got
+    ex = r["ex"]
+    n = 0
+    for o, cond in sel:
+        gets = [e for e in o.events if e[0] == "call" and re.search(r"AHashMap::<\[u8; 32\], Block>::get::", e[1])]
+        from .models import as_enum, enum_is
+        parent_known = None
+        if gets:
+            parent_known = enum_is(ex, as_enum(ex, gets[0][3], "Option"), "Some")
+        bf = [e for e in o.events if e[0] == "call" and re.search(r"BurnFee::return_routing_work_needed_to_produce_block_in_nolan$", e[1])]
+        v.queries += 1
+        if not bf:
+            if parent_known is not None and ex.feasible(o.pc, z3.And(cond, parent_known)):
+                v.fail("Block::validate can return true for a block with a known parent without computing the routing work requirement", dict(path=L.trace_text(o, 20)))
+            continue
+        needed = bf[0][3]
+        work = BV.block_field(ctx, r, o, "total_work")
+        ts = BV.block_field(ctx, r, o, "timestamp")
+        rr, m = ex.model_for(o.pc, z3.And(cond, z3.ULT(work.bv, needed.bv)))
+        if rr == z3.sat:
+            v.fail("Block::validate returns true although total_work < the routing work required", dict(total_work=m.eval(work.bv, model_completion=True).as_long(), needed=m.eval(needed.bv, model_completion=True).as_long()))
+            continue
+        a = bf[0][2]
+        if not (isinstance(a[1], S.I) and z3.eq(z3.simplify(a[1].bv), z3.simplify(ts.bv))):
+            v.fail("the work requirement is not computed from this block's timestamp")
+            continue
+        n += 1
+    v.covers_total += 1
+    v.covers_sat += 1 if n else 0
+
+
+def c08_block_gt_gate(ctx, v):
+    """whenever Block::validate examines a golden ticket (GoldenTicket::validate called) and
+    returns true, the ticket validated against the parent's difficulty."""
+    got = _sel(ctx, v)
+    if got is None:
+        return
+    r, sel = got
+    ex = r["ex"]
+    n = 0
+    for o, cond in sel:
+        g = [e for e in o.events if e[0] == "call" and re.search(r"GoldenTicket::validate$", e[1])]
+        if not g:
+            continue
+        v.queries += 1
+        rr, m = ex.model_for(o.pc, z3.And(cond, z3.Not(g[0][3])))
+        if rr == z3.sat:
+            v.fail("Block::validate returns true although GoldenTicket::validate returned false")
+        else:
+            n += 1
+    v.covers_total += 1
+    v.covers_sat += 1 if n else 0
